@@ -14,6 +14,7 @@ CONSTANTS
   ShareEffect = "readonly"
   RADS = {8}
   GMS = {64,128}
+  TableEnds = "nearest"
   Slicing = "layer"
   Export = FALSE
 INVARIANT LevelsStrictlyDecreasing
@@ -27,6 +28,7 @@ INVARIANT MixAlignedWithLayers
 INVARIANT EvaluationKeepsStructure
 INVARIANT DensityIdealGas
 INVARIANT OneEntryPerLayer
+INVARIANT TabulatedTemperatureAligned
 INVARIANT FitsInv
 PROPERTY ReadsAreRepeatable
 CONSTRAINT Emit
